@@ -202,7 +202,15 @@ SigExisting(cfg, n, placed) ==
              laterTerm == {d \in outst : Len(d.terms) > 1 /\ ~TermHolds(cfg, d.terms[1], L)}
              preferNS  == {d \in outst : \E t \in Range(EffTaints(n)) : t.effect = "PreferNoSchedule" /\ ~\E y \in Range(d.tol) : Tolerates(y, t)}
              fitsWithout(D) == LeqRes(AddRes(SumReq(bound \cup placed), SumReq(outst \ D)), n.alloc)
-         IN IF laterTerm # {} /\ fitsWithout(laterTerm) THEN "resources:daemonset-admitted-by-later-or-term"
+             \* bound daemon pods whose daemonset no longer belongs on n (the node was tainted / relabelled after they were bound):
+             \* Karpenter subtracts ALL bound daemon requests from the expected overhead of the daemonsets that do belong there
+             stray == {b \in bound : \E d \in Range(cfg.ds) : b.owner = "ds:" \o d.name /\ ~DaemonRuns(cfg, d, L, EffTaints(n))}
+             Monus(a, b) == IF a > b THEN a - b ELSE 0
+             reduced == [cpu |-> Monus(SumReq(outst).cpu, SumReq(stray).cpu), mem |-> Monus(SumReq(outst).mem, SumReq(stray).mem),
+                         pods |-> Monus(SumReq(outst).pods, SumReq(stray).pods)]
+         IN IF stray # {} /\ LeqRes(AddRes(SumReq(bound \cup placed), reduced), n.alloc)
+            THEN "resources:stray-bound-daemon-pod-subtracted-from-expected-overhead"
+            ELSE IF laterTerm # {} /\ fitsWithout(laterTerm) THEN "resources:daemonset-admitted-by-later-or-term"
             ELSE IF preferNS # {} /\ fitsWithout(preferNS) THEN "resources:daemonset-not-tolerating-prefer-no-schedule"
             ELSE IF laterTerm \cup preferNS # {} /\ fitsWithout(laterTerm \cup preferNS) THEN "resources:daemonset-overlooked-on-existing-node"
             ELSE "resources"
